@@ -81,12 +81,15 @@ func (m *PointMap) MarshalBinary() ([]byte, error) {
 	return cbor.Marshal(pointBytes)
 }
 
+var noDuplicateKeys, _ = cbor.DecOptions{DupMapKey: cbor.DupMapKeyEnforcedAPF}.DecMode()
+
 func (m *PointMap) UnmarshalBinary(data []byte) error {
 	if m.group == nil {
 		return errors.New("PointMap.UnmarshalBinary called without setting a group")
 	}
 	pointBytes := make(map[ID]cbor.RawMessage)
-	if err := cbor.Unmarshal(data, &pointBytes); err != nil {
+	// a table naming the same party twice is refused (by default the last entry would silently win)
+	if err := noDuplicateKeys.Unmarshal(data, &pointBytes); err != nil {
 		return err
 	}
 	m.Points = make(map[ID]curve.Point, len(pointBytes))
